@@ -15,11 +15,19 @@ def run(rep, tier, seed, replay=None):
     else:
         plain, rej1 = codecrun.gen_cases(ctx, rng, n, comp_mode=False)
         comp, rej2 = codecrun.gen_cases(ctx, rng, n // 2, comp_mode=True)
-        cases = plain + comp
+        # compression requested for subsets that may differ in structure: the wire format has no compressed form for them,
+        # the message must come out uncompressed (and legal)
+        ragged, _ = codecrun.gen_cases(ctx, rng, n // 6, comp_mode=True, diff_structure_frac=0.8)
+        for c in ragged:
+            c["request_comp"] = True
+        cases = plain + comp + ragged
     jobs = []       # (case, comp)
     for c in cases:
-        jobs.append((c, 1 if (c["same"] and len(c["subsets"]) >= 2) else 0))
-    clines = [gen.case_line(c["ed"], comp, c["tmpl"], c["subsets"]) for c, comp in jobs]
+        if c.get("request_comp"):
+            jobs.append((c, 1 if (codecrun.same_structure(c) and len(c["subsets"]) >= 2) else 0))
+        else:
+            jobs.append((c, 1 if (c["same"] and len(c["subsets"]) >= 2) else 0))
+    clines = [gen.case_line(c["ed"], 1 if c.get("request_comp") else comp, c["tmpl"], c["subsets"]) for c, comp in jobs]
     mlines = [gen.case_line(c["ed"], comp, c["tmpl"], c["subsets"], model=True) for c, comp in jobs]
     couts = ctx.run_c(clines)
     codecrun.crash_violation(rep, "C03", ctx, clines, couts, "encoding")
@@ -48,6 +56,8 @@ def run(rep, tier, seed, replay=None):
         rep.count(key)
         for ft in codecrun.features(c):
             feat[ft] += 1
+        if c.get("request_comp"):
+            feat["compression_requested_" + ("same_structure" if comp else "different_structure")] += 1
         if i % 397 == 0:
             rep.sample({"case": key[:400], "library": co[:160], "reference_encoder": mo[:120]})
         robj = {"kind": "codec", "case": key, "case_obj": c, "library": co[:2000], "model": mo[:2000]}
